@@ -113,7 +113,7 @@ def gen_project(rng, nbase=None, heavy_noise=False, nodes=None):
     for b, (sk, seed) in enumerate(bases):
         base_lines = render_fn(sk, seed)
         for _ in range(rng.choice([1, 1, 2, 2, 3])):
-            kind = rng.choice(["verbatim", "verbatim", "noise", "reindent", "rename", "mutate"])
+            kind = rng.choice(["verbatim", "verbatim", "noise", "reindent", "rename", "mutate", "renamed_def"])
             path = rng.choice(list(files))
             if kind == "verbatim":
                 lines, verb = list(base_lines), True
@@ -123,11 +123,31 @@ def gen_project(rng, nbase=None, heavy_noise=False, nodes=None):
                 lines, verb = reindent(base_lines, rng.choice(["  ", "\t", "        "])), True
             elif kind == "rename":
                 lines, verb = render_fn(sk, seed + 1 + rng.randrange(1000)), False
+            elif kind == "renamed_def":
+                # the same statement skeleton under ANOTHER function name (a different tree of the same shape: distance exactly one relabel), with its
+                # own identifiers half of the time; inserted at a random position so that it is often visited before the second verbatim copy
+                sk2 = list(sk)
+                sk2[2] = "%s_twin%d" % (sk[2], rng.randrange(100))
+                lines, verb = render_fn(tuple(sk2), seed if rng.random() < 0.5 else seed + 1 + rng.randrange(1000)), False
             else:
                 lines, verb = render_fn(mutate_skeleton(sk, rng), seed), False
             files[path].append(lines)
             if verb:
                 where.setdefault(b, []).append((path, len(files[path]) - 1))
+    if rng.random() < 0.35:
+        # a deliberate triple: a function, its twin under another name (same shape, different tree), and a verbatim copy of the function AFTER the twin
+        # in the visiting order — whatever is remembered from comparing with the twin must not leak into the verbatim pair
+        b = rng.randrange(len(bases))
+        sk, seed = bases[b]
+        sk2 = list(sk)
+        sk2[2] = "%s_twin" % sk[2]
+        order = sorted(files)
+        first, last = order[0], order[-1]
+        files[first].append(render_fn(sk, seed))
+        where.setdefault(b, []).append((first, len(files[first]) - 1))
+        files[rng.choice([first, last])].append(render_fn(tuple(sk2), seed))
+        files[last].append(render_fn(sk, seed))
+        where.setdefault(b, []).append((last, len(files[last]) - 1))
     pr.files = [(p, fns) for p, fns in files.items() if fns]
     for b, locs in where.items():
         for x in range(len(locs)):
